@@ -21,6 +21,8 @@ import (
 
 type vfDB struct {
 	downCalls    int
+	readsDownFor time.Duration
+	downHits     int
 	downCallsFor time.Duration
 	name string // "primary" or "cache"
 
@@ -102,9 +104,15 @@ func (db *vfDB) enter(kind, query string, opStart bool) error {
 	db.calls++
 	stall := db.stallFor
 	down := db.downFor
+	if db.readsDownFor > 0 && query != "" && strings.HasPrefix(strings.ToLower(strings.TrimSpace(query)), "select") {
+		// reads time out (an overloaded primary), writes still get through
+		db.downHits++
+		down = db.readsDownFor
+	}
 	if db.downCalls > 0 {
 		// a short outage: only the next few calls find the database unreachable
 		db.downCalls--
+		db.downHits++
 		down = db.downCallsFor
 	}
 	var err error
@@ -184,8 +192,20 @@ func (db *vfDB) setDown(d time.Duration) {
 	db.mu.Unlock()
 }
 
+func (db *vfDB) setReadsDown(d time.Duration) {
+	db.mu.Lock()
+	if d > 0 {
+		db.downHits = 0
+	}
+	db.readsDownFor = d
+	db.mu.Unlock()
+}
+
 func (db *vfDB) setDownCalls(n int, d time.Duration) {
 	db.mu.Lock()
+	if n > 0 {
+		db.downHits = 0
+	}
 	db.downCalls, db.downCallsFor = n, d
 	db.mu.Unlock()
 }
